@@ -172,3 +172,25 @@ def calls(node):
 
 def is_self_field(n, field=None):
     return kind(n, "Field") and kind(n["base"], "Path") and n["base"]["path"] == "self" and (field is None or n["member"] == field)
+
+
+def walk_path(node, path=()):
+    """Yield (dict node, path) where path is a tuple of (parent dict, key) pairs from the root."""
+    if isinstance(node, dict):
+        yield node, path
+        for k, v in node.items():
+            if isinstance(v, (dict, list)):
+                yield from walk_path(v, path + ((node, k),))
+    elif isinstance(node, list):
+        for v in node:
+            if isinstance(v, (dict, list)):
+                yield from walk_path(v, path)
+
+
+def enclosing_ifs(path):
+    """[(if node, branch)] for the If nodes enclosing a node, branch in {'cond','then','else'}"""
+    out = []
+    for parent, key in path:
+        if parent.get("k") == "If" and key in ("cond", "then", "else"):
+            out.append((parent, key))
+    return out
